@@ -356,7 +356,10 @@ func AliasArrays(f *fit.File) int {
 // the fraction is cut off); with zonedUTC every valid date_time (UTC-kind)
 // field is shown in a zone other than UTC (same instant). It returns how many
 // values it changed.
-func TweakTimes(f *fit.File, subSecond, zonedUTC bool) int {
+func TweakTimes(f *fit.File, subSecond, zonedUTC bool, sameTime ...bool) int {
+	if len(sameTime) > 0 && sameTime[0] {
+		SameTimes(f)
+	}
 	tab := Table()
 	fracs := []time.Duration{1, 500 * time.Millisecond, 750 * time.Millisecond, 999999999}
 	zones := []*time.Location{time.FixedZone("", 19800), Location("America/New_York"), time.FixedZone("W", -12600), Location("Australia/Lord_Howe")}
@@ -443,6 +446,83 @@ func EditInPlace(f *fit.File) string {
 		}
 	}
 	return strings.Join(done, ",")
+}
+
+// SameTimes makes, in every message of f that has both a valid date_time
+// (UTC-kind) field and a local_date_time field, those fields hold the
+// identical time.Time value: the UTC field's instant shown in a zone one, five
+// and a half or minus three and a half hours from UTC (`now := ...;
+// m.Timestamp = now; m.LocalTimestamp = now` in a program whose zone is not
+// UTC). Unlike TweakTimes this changes what the local field means, so it has
+// to be applied to every copy of the File that serves as expectation. It
+// returns how many messages it changed.
+func SameTimes(f *fit.File) int {
+	tab := Table()
+	zones := []*time.Location{time.FixedZone("A", 3600), time.FixedZone("B", 19800), time.FixedZone("C", -12600)}
+	n := 0
+	for _, s := range append(FileSlots(), Slots(f.Type())...) {
+		for _, m := range SlotMsgs(f, s) {
+			m = reflect.Indirect(m)
+			if !m.IsValid() {
+				continue
+			}
+			num, _ := MsgNumOfType(m.Type().Name())
+			mi := tab.Msgs[num]
+			if mi == nil {
+				continue
+			}
+			utc, local := -1, -1
+			for i, fi := range mi.BySIdx {
+				if fi == nil || i >= m.NumField() {
+					continue
+				}
+				if t, ok := m.Field(i).Interface().(time.Time); ok {
+					if fi.Kind == fitmodel.KindTimeUTC && utc < 0 && !fit.IsBaseTime(t) {
+						utc = i
+					}
+					if fi.Kind == fitmodel.KindTimeLocal && local < 0 {
+						local = i
+					}
+				}
+			}
+			if utc < 0 || local < 0 {
+				continue
+			}
+			t := m.Field(utc).Interface().(time.Time).In(zones[n%len(zones)])
+			m.Field(utc).Set(reflect.ValueOf(t))
+			m.Field(local).Set(reflect.ValueOf(t))
+			n++
+		}
+	}
+	return n
+}
+
+// ScribbleByteArrays overwrites every element of every []byte / []uint8 field
+// of f's messages with 0xA5 and writes one more element into its spare
+// capacity if it has any (a caller filling in or extending a decoded value).
+// It returns how many slices it touched.
+func ScribbleByteArrays(f *fit.File) int {
+	n := 0
+	for _, s := range append(FileSlots(), Slots(f.Type())...) {
+		for _, m := range SlotMsgs(f, s) {
+			m = reflect.Indirect(m)
+			if !m.IsValid() {
+				continue
+			}
+			for i := 0; i < m.NumField(); i++ {
+				fv := m.Field(i)
+				if fv.Kind() != reflect.Slice || fv.IsNil() || fv.Type().Elem().Kind() != reflect.Uint8 {
+					continue
+				}
+				full := fv.Slice3(0, fv.Cap(), fv.Cap())
+				for j := 0; j < full.Len(); j++ {
+					full.Index(j).SetUint(0xA5)
+				}
+				n++
+			}
+		}
+	}
+	return n
 }
 
 // FileValues renders the field values of every message of f (header and
